@@ -231,6 +231,19 @@ def find_span(ctx, p, mult, clamped, search):
     if search == 'linear':
         got = hp.find_spans(p, list(U), n, [hi, u, lo])
         ctx.check_true('find_spans.default_func', list(got) == [r_hi, r, r_lo], 'find_spans %r' % (got,))
+    # a parameter list that walks up the knots: each distinct knot of the domain preceded by a point of the interval to its
+    # left (the answer for an element does not depend on the elements before it)
+    dk = []
+    for k in U[p:n + 1]:
+        if not dk or not (k is dk[-1]):
+            dk.append(k)
+    walk = []
+    for a, b in zip(dk, dk[1:]):
+        walk += [a, (a + b) / 2]
+    walk.append(dk[-1])
+    got = hp.find_spans(p, list(U), n, list(walk), func=f)
+    want = [f(p, list(U), n, t) for t in walk]
+    ctx.check_true('find_spans.lift.walk_up_the_knots', list(got) == want, 'find_spans %r, single calls %r' % (got, want))
 
 
 def _mult_shapes(pmax, kmax):
